@@ -100,6 +100,10 @@ def check(run):
                 ok = False
                 why = 'no slot assignment found (idiom changed)'
             run.check(ok, 'R1-GUARD', fld, fn.norm + fn.sig, fn.loc(), why, 'every path that sets an accept slot first writes ' + fld)
+    run.clause('R13f no value is read from storage that was already released: element references are not used after the erase that frees them')
+    nr = engines.dangling_element_refs(run, [f for f in fx.repo_functions() if f.file.startswith(simlib.REPO_PREFIX)], rule='R13f')
+    if nr < 4:
+        run.broke('only %d element references found (5 confirmed by hand)' % nr)
     r13b(run, OUTPUT_ONLY)
     r13c(run, OUTPUT_ONLY)
     r13d(run, simlib.REPO_PREFIX)
